@@ -148,7 +148,9 @@ def main(argv=None):
                 continue
             obl[(o["name"], o["status"])] += 1
             if o["status"] == "violated":
-                viol[(p["cfg"], o["name"])].append(o)
+                info = o.get("info") if isinstance(o.get("info"), dict) else {}
+                sig = str(info.get("sig") or (info.get("exception") or "")[:60].split("(")[0])
+                viol[(p["cfg"], o["name"], sig)].append(o)
         if "sample_records" in p and len(samples) < 6:
             samples.append({"config": p["cfg"], "decisions": p["decisions"], "model": p.get("model"),
                             "path_condition_head": p.get("sample_pc"),
@@ -180,7 +182,7 @@ def main(argv=None):
     # ------------------------------------------------------------------ violations: replay first
     known = load_known(prop)
     reported, known_hits, unreproduced = [], [], []
-    for (cid, name), obs in sorted(viol.items()):
+    for (cid, name, sig), obs in sorted(viol.items()):
         cfg = cfg_by_id[cid]
         obs_sorted = sorted(obs, key=lambda o: (not o.get("refined", False),))
         done = False
@@ -216,13 +218,17 @@ def main(argv=None):
                 "obligation": name, "model": o["model"], "info": o.get("info"),
                 "concrete": o.get("concrete"), "paths_violating": n,
                 "how": "./check %s --replay <this file>" % prop}
-        h = hashlib.sha1(json.dumps([cid, name], sort_keys=True).encode()).hexdigest()[:10]
+        h = hashlib.sha1(json.dumps([cid, name, json.dumps(o.get("concrete"), default=str)[:80]],
+                                    sort_keys=True).encode()).hexdigest()[:10]
         f = os.path.join(HERE, "replays", "%s-%s.json" % (prop, h))
         json.dump(body, open(f, "w"), indent=1, default=str)
         replay_files.append(f)
         print("VIOLATION property=%s replay=%s" % (prop, f))
-        print("   obligation %s  config %s  (%d violating paths)\n   model %s\n   real code: %s" % (
-            name, cid, n, json.dumps(o["model"]), json.dumps(o.get("concrete"), default=str)[:500]))
+        if len(replay_files) <= 6:
+            print("   obligation %s  config %s  (%d violating paths)\n   model %s\n   real code: %s" % (
+                name, cid, n, json.dumps(o["model"])[:400], json.dumps(o.get("concrete"), default=str)[:400]))
+        else:
+            print("   obligation %s  config %s  (%d violating paths)" % (name, cid, n))
     if reported:
         # a counterexample that replayed on the real code outranks harness diagnostics
         # (which are still printed below)
